@@ -379,10 +379,12 @@ func join(a, b context, node parse.Node, nodeName string) context {
 
 	// Allow a nudged context to join with an unnudged one.
 	// This means that
-	//   <p title={{if .C}}{{.}}{{end}}
-	// ends in an unquoted value state even though the else branch
-	// ends in stateBeforeValue.
-	if c, d := nudge(a), nudge(b); !(c.eq(a) && d.eq(b)) {
+	//   <p {{if .C}}hidden{{end}}
+	// ends in an attribute name state even though the else branch
+	// ends in stateTag.
+	// That is not done after "=": in `<p title={{if .C}}x{{end}} id="y">` white space ends the
+	// unquoted value x on one path and is skipped on the other, where id="y" is the value.
+	if c, d := nudge(a), nudge(b); !(c.eq(a) && d.eq(b)) && a.state != stateBeforeValue && b.state != stateBeforeValue {
 		if e := join(c, d, node, nodeName); e.state != stateError {
 			return e
 		}
